@@ -1482,16 +1482,17 @@ class LuaFormatterWriter(LuaASTEchoWriter):
 
         # If a comment is on the same line as previous, separate it by two
         # spaces.
+        # (PICO-8's // comments are comments too.)
         if start_pos != 0:
-            spaces = re.sub(br'^ *--', b'  --', spaces)
+            spaces = re.sub(br'^ *(--|//)', br'  \1', spaces)
 
         # If a comment is on its own line, indent it at the indent level.
         spaces = re.sub(
-            br'\n *--',
-            b'\n' + b' ' * self._indent_mult * self._indent + b'--',
+            br'\n *(--|//)',
+            b'\n' + b' ' * self._indent_mult * self._indent + br'\1',
             spaces)
         if start_pos == 0:
-            spaces = re.sub(br'^ *--', b'--', spaces)
+            spaces = re.sub(br'^ *(--|//)', br'\1', spaces)
 
         # If next non-space is on its own line, indent it at the indent level.
         # (\Z, not $: $ also matches before a final newline, which indented
